@@ -28,12 +28,12 @@ type Event struct {
 }
 
 type Tracer struct {
-	w     *bufio.Writer
-	f     *os.File
-	N     int
-	calls int
-	seen  map[string]struct{} // distinct (op, args) keys
-	nontr int
+	w       *bufio.Writer
+	f       *os.File
+	N       int
+	calls   int
+	seen    map[string]struct{} // distinct (op, args) keys
+	nontr   int
 	dropped int
 }
 
